@@ -19,6 +19,12 @@ CLAIMED = {
  "C13": ("Force polls the context before every step (ghost flag set by the non-blocking select, cleared by child; obligation at the call of child), and every Force call in both packages receives a context derived from a context parameter of the enclosing function (data-flow check on SSA).",
          "Fragment: the delay bound, termination of a single step, scheduling and 'interpreter stays usable' are not decided. TermString.Scan is a declared exemption (finite write).",
          "contract-based deductive verification (ghost state obligation in Force) + structural data-flow obligation over go/ssa", "DESIGN.md 5 C13"),
+ "C18": ("Contracts on the operator table as a finite map from name and class to (priority, specifier): operators.init/defined/definedInClass/define/remove with their exact effect and frame, operatorSpecifier.class/arity and operator.bindingPriorities against the ISO table, validateOp (returns an error exactly in the ISO permission cases, changes nothing), and op/3 itself: every error return leaves every row unchanged (validation completes before the first mutation), the continuation runs only after the update, nothing but the listed names' slots of the specifier's class changes.",
+         "Fragment: the effect clause is proved for the last name of a list (each earlier name had it when its iteration ended; the quantified version over all names timed out and is not claimed); current_op/3's enumeration, error-term selection and that reader/writer consult the table are not decided. Trusted: Env.Resolve, ListIterator, appendUniqNewAtom, error constructors; axiom: the four special atoms are pairwise distinct.",
+         "contract-based deductive verification: WP over go/ssa with map/array heap model and loop invariants; SMT", "DESIGN.md 5 C18"),
+ "C19": ("Contracts on the stream cursor: Stream.ReadRune/UnreadRune/ReadByte/UnreadByte/initRead/reset/checkEOS against a ghost model of bufio.Reader transcribed from its source (consumed bytes, last rune size, remembered byte; a failed ReadByte keeps the remembered byte), position moves by exactly the bytes consumed, wrong stream type/mode is refused without moving; peek_char/peek_byte leave the cursor where it was when the continuation runs and no state-mutating defer is pending while a continuation may run (peek/read_term); get_char/get_byte advance by exactly what they deliver; text/binary writers forward the bytes unchanged in one call and count them.",
+         "Fragment: that read_term stops exactly after the end token (lexer look-ahead), Seek, eof_action sequences across operations are not decided. Trusted: the bufio extern contracts, stream(), newBufReader, Parser.Term, errors.Is fact.",
+         "contract-based deductive verification: WP over go/ssa with ghost fields and continuation-point (onk / defer-k) obligations; SMT", "DESIGN.md 5 C19"),
 }
 
 NA_REASON = {
